@@ -46,6 +46,7 @@ type ReplayVal struct {
 }
 
 type Engine struct {
+	files     map[string][]Sc // files created by vrt.TempFile (per path)
 	curPanic  *goPanic // the panic whose deferred calls are running (nil: none, or recovered)
 	prog      *ssa.Program
 	tt        *TermTab
@@ -191,6 +192,7 @@ func (e *Engine) resetPath(prefix []uint64) {
 	e.fuel = e.opts.Fuel
 	e.depth = 0
 	e.curPanic = nil
+	e.files = nil
 	e.maxDepth = e.opts.MaxDepth
 	e.globals = map[*ssa.Global]*Val{}
 	e.inited = map[*ssa.Package]bool{}
